@@ -1,354 +1,367 @@
 // replay for property C06, harness construction::features::transport::verif_kani_proofs::c06_tw_kernel_state_closed_leg (crate vrp-core, proof module transport)
 // failed: assertion failed: result.is_none() == feasible @ transport_proofs.rs:75
 // run: /verif/check --replay /verif/replays/C06/c06_tw_kernel_state_closed_leg.rs
-/// Test generated for harness `construction::features::transport::verif_kani_proofs::c06_tw_kernel_state_closed_leg` 
-///
-/// Check for `assertion`: "assertion failed: result.is_none() == feasible"
-///
-/// # Warning
-///
-/// Concrete playback tests combined with stubs or contracts is highly
-/// experimental, and subject to change.
-///
-/// The original harness has stubs which are not applied to this test.
-/// This may cause a mismatch of non-deterministic values if the stub
-/// creates any non-deterministic value.
-/// The execution path may also differ, which can be used to refine the stub
-/// logic.
-
 #[test]
-fn kani_concrete_playback_c06_tw_kernel_state_closed_leg_2972569821224864875() {
+fn kani_concrete_playback_c06_tw_kernel_state_closed_leg_1308234032233830445() {
     let concrete_vals: Vec<Vec<u8>> = vec![
-        // 32
-        vec![32],
-        // 32
-        vec![32],
-        // 0
-        vec![0],
-        // 15
-        vec![15],
-        // 112
-        vec![112],
-        // 15
-        vec![15],
-        // 0
-        vec![0],
-        // 15
-        vec![15],
-        // 0
-        vec![0],
-        // 15
-        vec![15],
-        // 32
-        vec![32],
-        // 15
-        vec![15],
-        // 0
-        vec![0],
-        // 15
-        vec![15],
-        // 0
-        vec![0],
-        // 15
-        vec![15],
-        // 32
-        vec![32],
-        // 15
-        vec![15],
-        // 2
-        vec![2],
-        // 2
-        vec![2],
-        // 255
-        vec![255],
-        // 1ul
-        vec![1, 0, 0, 0, 0, 0, 0, 0],
-        // 255
-        vec![255],
-        // 0
-        vec![0],
         // 1
         vec![1],
-        // 9
-        vec![9],
-        // 1ul
-        vec![1, 0, 0, 0, 0, 0, 0, 0],
-        // 0
-        vec![0],
-        // 0
-        vec![0],
-        // 255
-        vec![255],
-        // 2ul
-        vec![2, 0, 0, 0, 0, 0, 0, 0],
-        // 255
-        vec![255],
-        // 32
-        vec![32],
-    ];
-    kani::concrete_playback_run(concrete_vals, c06_tw_kernel_state_closed_leg);
-}
-
-/// Test generated for harness `construction::features::transport::verif_kani_proofs::c06_tw_kernel_state_closed_leg` 
-///
-/// Check for `cover`: "accepted"
-///
-/// # Warning
-///
-/// Concrete playback tests combined with stubs or contracts is highly
-/// experimental, and subject to change.
-///
-/// The original harness has stubs which are not applied to this test.
-/// This may cause a mismatch of non-deterministic values if the stub
-/// creates any non-deterministic value.
-/// The execution path may also differ, which can be used to refine the stub
-/// logic.
-
-#[test]
-fn kani_concrete_playback_c06_tw_kernel_state_closed_leg_8094253128287740480() {
-    let concrete_vals: Vec<Vec<u8>> = vec![
-        // 255
-        vec![255],
-        // 255
-        vec![255],
-        // 3
-        vec![3],
-        // 255
-        vec![255],
-        // 3
-        vec![3],
-        // 255
-        vec![255],
-        // 255
-        vec![255],
-        // 255
-        vec![255],
-        // 255
-        vec![255],
-        // 255
-        vec![255],
-        // 255
-        vec![255],
-        // 255
-        vec![255],
-        // 245
-        vec![245],
-        // 255
-        vec![255],
-        // 3
-        vec![3],
-        // 255
-        vec![255],
-        // 2
-        vec![2],
-        // 255
-        vec![255],
-        // 159
-        vec![159],
-        // 159
-        vec![159],
-        // 255
-        vec![255],
-        // 2ul
-        vec![2, 0, 0, 0, 0, 0, 0, 0],
-        // 255
-        vec![255],
         // 1
         vec![1],
+        // 0
+        vec![0],
+        // 255
+        vec![255],
         // 5
         vec![5],
         // 255
         vec![255],
-        // 2ul
-        vec![2, 0, 0, 0, 0, 0, 0, 0],
         // 1
         vec![1],
-        // 142
-        vec![142],
         // 255
         vec![255],
-        // 2ul
-        vec![2, 0, 0, 0, 0, 0, 0, 0],
+        // 1
+        vec![1],
         // 255
         vec![255],
-        // 129
-        vec![129],
-    ];
-    kani::concrete_playback_run(concrete_vals, c06_tw_kernel_state_closed_leg);
-}
-
-/// Test generated for harness `construction::features::transport::verif_kani_proofs::c06_tw_kernel_state_closed_leg` 
-///
-/// Check for `cover`: "skipped"
-///
-/// # Warning
-///
-/// Concrete playback tests combined with stubs or contracts is highly
-/// experimental, and subject to change.
-///
-/// The original harness has stubs which are not applied to this test.
-/// This may cause a mismatch of non-deterministic values if the stub
-/// creates any non-deterministic value.
-/// The execution path may also differ, which can be used to refine the stub
-/// logic.
-
-#[test]
-fn kani_concrete_playback_c06_tw_kernel_state_closed_leg_17638324230878053615() {
-    let concrete_vals: Vec<Vec<u8>> = vec![
-        // 1
-        vec![1],
-        // 0
-        vec![0],
-        // 0
-        vec![0],
-        // 0
-        vec![0],
-        // 16
-        vec![16],
-        // 0
-        vec![0],
-        // 64
-        vec![64],
-        // 0
-        vec![0],
-        // 1
-        vec![1],
-        // 0
-        vec![0],
-        // 16
-        vec![16],
-        // 0
-        vec![0],
-        // 1
-        vec![1],
-        // 0
-        vec![0],
-        // 1
-        vec![1],
-        // 0
-        vec![0],
-        // 16
-        vec![16],
-        // 0
-        vec![0],
-        // 254
-        vec![254],
-        // 13
-        vec![13],
+        // 7
+        vec![7],
         // 255
         vec![255],
-        // 2ul
-        vec![2, 0, 0, 0, 0, 0, 0, 0],
-        // 124
-        vec![124],
+        // 1
+        vec![1],
+        // 255
+        vec![255],
         // 0
         vec![0],
-        // 252
-        vec![252],
-        // 252
-        vec![252],
-        // 2ul
-        vec![2, 0, 0, 0, 0, 0, 0, 0],
-        // 33
-        vec![33],
-        // 13
-        vec![13],
-        // 184
-        vec![184],
+        // 255
+        vec![255],
+        // 1
+        vec![1],
+        // 255
+        vec![255],
+        // 248
+        vec![248],
+        // 248
+        vec![248],
+        // 255
+        vec![255],
         // 0ul
         vec![0, 0, 0, 0, 0, 0, 0, 0],
-        // 124
-        vec![124],
-        // 1
-        vec![1],
+        // 127
+        vec![127],
+        // 5
+        vec![5],
+        // 7
+        vec![7],
+        // 7
+        vec![7],
+        // 1ul
+        vec![1, 0, 0, 0, 0, 0, 0, 0],
+        // 0
+        vec![0],
+        // 191
+        vec![191],
+        // 255
+        vec![255],
+        // 2ul
+        vec![2, 0, 0, 0, 0, 0, 0, 0],
+        // 255
+        vec![255],
+        // 13
+        vec![13],
     ];
     kani::concrete_playback_run(concrete_vals, c06_tw_kernel_state_closed_leg);
 }
 
-/// Test generated for harness `construction::features::transport::verif_kani_proofs::c06_tw_kernel_state_closed_leg` 
-///
-/// Check for `cover`: "stopped"
-///
-/// # Warning
-///
-/// Concrete playback tests combined with stubs or contracts is highly
-/// experimental, and subject to change.
-///
-/// The original harness has stubs which are not applied to this test.
-/// This may cause a mismatch of non-deterministic values if the stub
-/// creates any non-deterministic value.
-/// The execution path may also differ, which can be used to refine the stub
-/// logic.
-
 #[test]
-fn kani_concrete_playback_c06_tw_kernel_state_closed_leg_3367012642552324082() {
+fn kani_concrete_playback_c06_tw_kernel_state_closed_leg_724466978669163094() {
     let concrete_vals: Vec<Vec<u8>> = vec![
-        // 14
-        vec![14],
-        // 240
-        vec![240],
-        // 6
-        vec![6],
-        // 240
-        vec![240],
-        // 15
-        vec![15],
-        // 240
-        vec![240],
-        // 14
-        vec![14],
-        // 240
-        vec![240],
-        // 1
-        vec![1],
-        // 240
-        vec![240],
-        // 15
-        vec![15],
-        // 240
-        vec![240],
-        // 14
-        vec![14],
-        // 240
-        vec![240],
-        // 1
-        vec![1],
-        // 240
-        vec![240],
-        // 240
-        vec![240],
-        // 240
-        vec![240],
-        // 32
-        vec![32],
         // 64
         vec![64],
+        // 7
+        vec![7],
+        // 0
+        vec![0],
+        // 0
+        vec![0],
+        // 0
+        vec![0],
+        // 7
+        vec![7],
+        // 129
+        vec![129],
+        // 7
+        vec![7],
+        // 1
+        vec![1],
+        // 7
+        vec![7],
+        // 1
+        vec![1],
+        // 7
+        vec![7],
+        // 0
+        vec![0],
+        // 7
+        vec![7],
+        // 1
+        vec![1],
+        // 7
+        vec![7],
+        // 4
+        vec![4],
+        // 1
+        vec![1],
+        // 4
+        vec![4],
+        // 0
+        vec![0],
+        // 223
+        vec![223],
+        // 0ul
+        vec![0, 0, 0, 0, 0, 0, 0, 0],
+        // 255
+        vec![255],
+        // 0
+        vec![0],
+        // 0
+        vec![0],
+        // 0
+        vec![0],
+        // 1ul
+        vec![1, 0, 0, 0, 0, 0, 0, 0],
+        // 0
+        vec![0],
+        // 1
+        vec![1],
+        // 255
+        vec![255],
+        // 2ul
+        vec![2, 0, 0, 0, 0, 0, 0, 0],
+        // 7
+        vec![7],
+        // 4
+        vec![4],
+    ];
+    kani::concrete_playback_run(concrete_vals, c06_tw_kernel_state_closed_leg);
+}
+
+#[test]
+fn kani_concrete_playback_c06_tw_kernel_state_closed_leg_11983528561690736645() {
+    let concrete_vals: Vec<Vec<u8>> = vec![
+        // 1
+        vec![1],
+        // 255
+        vec![255],
+        // 6
+        vec![6],
+        // 255
+        vec![255],
+        // 1
+        vec![1],
+        // 255
+        vec![255],
+        // 1
+        vec![1],
+        // 255
+        vec![255],
+        // 6
+        vec![6],
+        // 255
+        vec![255],
+        // 1
+        vec![1],
+        // 255
+        vec![255],
+        // 1
+        vec![1],
+        // 255
+        vec![255],
+        // 6
+        vec![6],
+        // 255
+        vec![255],
+        // 1
+        vec![1],
+        // 255
+        vec![255],
+        // 127
+        vec![127],
+        // 1
+        vec![1],
+        // 255
+        vec![255],
+        // 1ul
+        vec![1, 0, 0, 0, 0, 0, 0, 0],
+        // 127
+        vec![127],
+        // 0
+        vec![0],
+        // 7
+        vec![7],
+        // 7
+        vec![7],
+        // 1ul
+        vec![1, 0, 0, 0, 0, 0, 0, 0],
+        // 8
+        vec![8],
+        // 127
+        vec![127],
+        // 255
+        vec![255],
+        // 1ul
+        vec![1, 0, 0, 0, 0, 0, 0, 0],
+        // 255
+        vec![255],
+        // 97
+        vec![97],
+    ];
+    kani::concrete_playback_run(concrete_vals, c06_tw_kernel_state_closed_leg);
+}
+
+#[test]
+fn kani_concrete_playback_c06_tw_kernel_state_closed_leg_15045424561277137070() {
+    let concrete_vals: Vec<Vec<u8>> = vec![
+        // 16
+        vec![16],
+        // 1
+        vec![1],
+        // 72
+        vec![72],
+        // 1
+        vec![1],
+        // 64
+        vec![64],
+        // 1
+        vec![1],
+        // 25
+        vec![25],
+        // 1
+        vec![1],
+        // 128
+        vec![128],
+        // 64
+        vec![64],
+        // 128
+        vec![128],
+        // 128
+        vec![128],
+        // 64
+        vec![64],
+        // 128
+        vec![128],
+        // 64
+        vec![64],
+        // 1
+        vec![1],
+        // 65
+        vec![65],
+        // 1
+        vec![1],
+        // 100
+        vec![100],
+        // 9
+        vec![9],
         // 255
         vec![255],
         // 1ul
         vec![1, 0, 0, 0, 0, 0, 0, 0],
         // 124
         vec![124],
-        // 8
-        vec![8],
         // 0
         vec![0],
-        // 0
-        vec![0],
+        // 1
+        vec![1],
+        // 4
+        vec![4],
         // 2ul
         vec![2, 0, 0, 0, 0, 0, 0, 0],
-        // 0
-        vec![0],
-        // 0
-        vec![0],
-        // 23
-        vec![23],
-        // 2ul
-        vec![2, 0, 0, 0, 0, 0, 0, 0],
+        // 54
+        vec![54],
+        // 84
+        vec![84],
+        // 210
+        vec![210],
+        // 0ul
+        vec![0, 0, 0, 0, 0, 0, 0, 0],
         // 124
         vec![124],
-        // 23
-        vec![23],
+        // 28
+        vec![28],
+    ];
+    kani::concrete_playback_run(concrete_vals, c06_tw_kernel_state_closed_leg);
+}
+
+#[test]
+fn kani_concrete_playback_c06_tw_kernel_state_closed_leg_3295071731097506807() {
+    let concrete_vals: Vec<Vec<u8>> = vec![
+        // 16
+        vec![16],
+        // 1
+        vec![1],
+        // 72
+        vec![72],
+        // 1
+        vec![1],
+        // 64
+        vec![64],
+        // 1
+        vec![1],
+        // 25
+        vec![25],
+        // 1
+        vec![1],
+        // 128
+        vec![128],
+        // 64
+        vec![64],
+        // 128
+        vec![128],
+        // 128
+        vec![128],
+        // 64
+        vec![64],
+        // 128
+        vec![128],
+        // 64
+        vec![64],
+        // 1
+        vec![1],
+        // 65
+        vec![65],
+        // 1
+        vec![1],
+        // 100
+        vec![100],
+        // 9
+        vec![9],
+        // 255
+        vec![255],
+        // 1ul
+        vec![1, 0, 0, 0, 0, 0, 0, 0],
+        // 124
+        vec![124],
+        // 0
+        vec![0],
+        // 1
+        vec![1],
+        // 4
+        vec![4],
+        // 2ul
+        vec![2, 0, 0, 0, 0, 0, 0, 0],
+        // 54
+        vec![54],
+        // 116
+        vec![116],
+        // 210
+        vec![210],
+        // 0ul
+        vec![0, 0, 0, 0, 0, 0, 0, 0],
+        // 124
+        vec![124],
+        // 28
+        vec![28],
     ];
     kani::concrete_playback_run(concrete_vals, c06_tw_kernel_state_closed_leg);
 }
